@@ -35,6 +35,9 @@ type C16Monitor struct {
 	cps     []cpRec
 	haveIdx bool
 	lastIdx uint64
+	// sent: the monitor's own record of who signed which checkpoint - timestamp -> EVM address (hex) of every member of
+	// the previous set whose vote extension, part of an accepted commit, carried a valid signature over that checkpoint
+	sent map[uint64]map[string]bool
 }
 
 func NewC16Monitor(st *Stats) *C16Monitor { return &C16Monitor{st: st} }
@@ -251,10 +254,46 @@ func (m *C16Monitor) AfterCommit(c *Chain, ctx sdk.Context, br *BlockResult) {
 // followSteps: for the newest checkpoint whose step has not been accepted yet, feed the contract model with what
 // the chain stored as soon as members holding more than 2/3 of the previous set's power have signed.
 func (m *C16Monitor) followSteps(c *Chain, ctx sdk.Context, sh *ref.Shapes) {
-	if len(m.cps) < 2 {
-		return
+	// every step not yet accepted, newest first (a checkpoint that already has a successor still has to be reachable:
+	// the light client walks the chain of checkpoints one by one; added after C16-j)
+	for i := len(m.cps) - 1; i >= 1 && i >= len(m.cps)-4; i-- {
+		m.followStep(c, ctx, sh, i)
 	}
-	i := len(m.cps) - 1
+}
+
+// BeginBlockEntry (the state after the PreBlocker stored the last commit's bridge data): the monitor notes for itself
+// which members of the previous set sent a valid signature over which checkpoint.
+func (m *C16Monitor) BeginBlockEntry(c *Chain, ctx sdk.Context) {
+	for _, s := range sentExtensions(c) {
+		sig := s.ext.ValsetSignature
+		if !s.ok || len(sig.Signature) == 0 {
+			continue
+		}
+		for i := 1; i < len(m.cps); i++ {
+			if m.cps[i].ts != sig.Timestamp {
+				continue
+			}
+			addr := s.val.EVMAddress()
+			if _, ok := ref.SigFromChain(sig.Signature, m.cps[i].par.Checkpoint, addr); !ok {
+				continue
+			}
+			for _, v := range m.cps[i-1].set.BridgeValidatorSet {
+				if bytes.Equal(v.EthereumAddress, addr) {
+					if m.sent == nil {
+						m.sent = map[uint64]map[string]bool{}
+					}
+					if m.sent[sig.Timestamp] == nil {
+						m.sent[sig.Timestamp] = map[string]bool{}
+					}
+					m.sent[sig.Timestamp][string(addr)] = true
+					m.st.Bucket("c16|signature-sent|checkpoint-has-successor=%v", i < len(m.cps)-1)
+				}
+			}
+		}
+	}
+}
+
+func (m *C16Monitor) followStep(c *Chain, ctx sdk.Context, sh *ref.Shapes, i int) {
 	cur, prev := &m.cps[i], m.cps[i-1]
 	if cur.steps {
 		return
@@ -282,8 +321,27 @@ func (m *C16Monitor) followSteps(c *Chain, ctx sdk.Context, sh *ref.Shapes) {
 		rsigs[j] = s
 		signed += v.Power
 	}
-	if signed*3 <= total*2 {
+	// "have signed" by the monitor's own record: members whose valid signature travelled in an accepted commit
+	var ownSigned uint64
+	dup := map[string]bool{}
+	hasDup := false
+	for _, v := range prev.set.BridgeValidatorSet {
+		if dup[string(v.EthereumAddress)] {
+			hasDup = true // two operators under one EVM address (known finding F26): slots are ambiguous, own record not used
+		}
+		dup[string(v.EthereumAddress)] = true
+		if m.sent[cur.ts][string(v.EthereumAddress)] {
+			ownSigned += v.Power
+		}
+	}
+	if hasDup {
+		ownSigned = 0
+	}
+	if signed*3 <= total*2 && ownSigned*3 <= total*2 {
 		return
+	}
+	if signed*3 <= total*2 {
+		m.st.Count("c16.contract-step.triggered-by-own-record-of-signers")
 	}
 	// the property speaks of validator sets "with total power of at least 2 whole tokens": below that two thirds round
 	// down to a zero threshold, which the contract refuses by design
@@ -300,7 +358,7 @@ func (m *C16Monitor) followSteps(c *Chain, ctx sdk.Context, sh *ref.Shapes) {
 	m.st.Count("c16.contract-step.evals")
 	m.st.Bucket("c16|step|signers=%d/%d|unusable=%d|setchange=%v", minInt(countNonEmpty(rsigs), 6), len(rsigs), minInt(unusable, 2), len(prev.set.BridgeValidatorSet) != len(cur.set.BridgeValidatorSet))
 	if err := model.UpdateValidatorSet(cur.par.ValsetHash, cur.par.PowerThreshold, new(big.Int).SetUint64(cur.ts), prevSet, rsigs); err != nil {
-		c.Violate("C16", "c16", "contract-model-rejects-checkpoint-step:"+err.Error(), map[string]interface{}{"from": prev.idx, "to": cur.idx, "signed_power": signed, "total": total})
+		c.Violate("C16", "c16", "contract-model-rejects-checkpoint-step:"+err.Error(), map[string]interface{}{"from": prev.idx, "to": cur.idx, "signed_power": signed, "sent_by_members_power": ownSigned, "total": total})
 	}
 	cur.steps = true
 }
